@@ -153,6 +153,39 @@ def extract(repo):
     R["all_unsafe_extra"] = re.findall(r"MutatorKind::(\w+)", extra.group(1)) if extra else []
     for n in R["all_safe"] + R["all_unsafe_extra"]:
         if n not in KNOWN_MUTS: raise Refuse("unknown mutator kind %s" % n)
+    # C14: every in-place mutation site works on a stack cell (bound by self.peek() / self.pop()), and
+    # Stack::push registers the cell it creates; reset and Drop release the registered cells
+    so = open(os.path.join(repo, "src/generator/stack_ops.rs")).read().split("\n")
+    sites = []
+    for i, l in enumerate(so):
+        m = re.search(r"\*(\w+)\.borrow_mut\(\)", l)
+        if m:
+            var = m.group(1)
+            window = "\n".join(so[max(0, i - 30):i])
+            origin = None
+            if re.search(r"Some\(%s\)\s*=\s*self\.peek\(\)" % var, window): origin = "peek"
+            elif re.search(r"Some\(%s\)\)?\s*=\s*\(?self\.pop\(\)" % var, window) or re.search(r"\(Some\(\w+\), Some\(%s\)\) = \(self\.pop\(\), self\.pop\(\)\)" % var, window): origin = "pop"
+            if origin is None:
+                raise Refuse("in-place mutation at stack_ops.rs:%d on `%s`, which is not bound by self.peek()/self.pop()" % (i + 1, var))
+            sites.append((i + 1, var, origin))
+    other = []
+    for root, _, files in os.walk(os.path.join(repo, "src")):
+        for fn in files:
+            if fn.endswith(".rs") and fn not in ("stack_ops.rs", "verif.rs", "stack.rs"):
+                txt = open(os.path.join(root, fn)).read()
+                if "borrow_mut()" in txt:
+                    other.append(fn)
+    if other:
+        raise Refuse("borrow_mut() outside stack_ops.rs / stack.rs: %s" % other)
+    stk2 = stk
+    push = re.search(r"pub fn push\(&mut self, value: StackObject\) \{(.*?)\n    \}", stk2, re.S)
+    if not push or "self.cells.push(Rc::downgrade(" not in push.group(1):
+        raise Refuse("Stack::push does not register the new cell in the arena")
+    rst = re.search(r"pub fn reset\(&mut self\) \{(.*?)\n    \}", stk2, re.S)
+    drp = re.search(r"impl Drop for Stack \{(.*?)\n\}", stk2, re.S)
+    if not rst or "release_cells()" not in rst.group(1) or not drp or "release_cells()" not in drp.group(1):
+        raise Refuse("Stack::reset / Drop do not release the arena cells")
+    R["mut_sites"] = sites
     # module table facts
     data = open(os.path.join(repo, "data/stdlib_complete.txt"), "rb").read()
     lines = data.decode("utf-8", "replace").splitlines()     # Rust str::lines()
@@ -192,6 +225,8 @@ def render(R):
     o.append("\n/-- `MutatorKind::all_mutators(false)` and the kinds added when `unsafe_mutations` -/")
     o.append("def allMutatorsSafe : List String := %s" % lean_list(['"%s"' % n for n in R["all_safe"]]))
     o.append("def allMutatorsUnsafeExtra : List String := %s" % lean_list(['"%s"' % n for n in R["all_unsafe_extra"]]))
+    o.append("\n/-- in-place mutation sites of `stack_ops.rs` (line, receiver, how the receiver was obtained): all of them\nwork on a cell taken from the simulated stack, i.e. on an arena cell; `Stack::push` registers every cell it\ncreates and `reset`/`Drop` release them (checked syntactically by the translator) -/")
+    o.append("def mutationSites : List (Nat × String × String) := %s" % lean_list(['(%d, "%s", "%s")' % x for x in R["mut_sites"]]))
     o.append("\n/-- `data/stdlib_complete.txt`: number of lines; every line non-empty printable ASCII without quote/backslash -/")
     o.append("def modulesCount : Nat := %d\ndef modulesWellFormed : Bool := %s" % (R["mods_n"], "true" if R["mods_ok"] else "false"))
     o.append("\nend Gen\nend PFV\n")
